@@ -75,7 +75,11 @@ def build_api(case, d, vseed):
                             levels=("ModifiedPeptide",), pep_pool=20)
     else:
         db = prot.protein_db(rng, n_prot=90, anagrams=12)
-        tab = prot.psm_table_for_db(rng, db, n_spectra=int(rng.integers(500, 700)), styles=("plain", "mod_sq", "flank"), sep=2.0)
+        tab = prot.psm_table_for_db(rng, db, n_spectra=int(rng.integers(500, 700)), styles=("plain", "mod_sq", "flank"), sep=2.0,
+                                    ties=(fasta_mode == "decoys"))
+        if learner == "percolator":
+            # the built-in model would use the unique row id as a feature and never produce tied scores
+            tab["df"] = tab["df"].drop(columns=["rid"])
         fa = prot.write_fasta(db, d / "db.fasta", with_decoys=(fasta_mode == "decoys"))
         spec["fasta"] = str(fa)
         spec["fasta_kwargs"] = dict(missed_cleavages=0, min_length=6)
@@ -88,6 +92,8 @@ def build_api(case, d, vseed):
             col[int(rng.integers(0, len(df)))] = np.nan
             df.insert(pos - j, nm, col)
         for j, nm in enumerate(["extra_b", "aa_extra", "Extra_q", "m_extra"]):
+            if fasta_mode == "decoys":
+                break  # this group keeps few, coarse features so that learned scores tie
             df.insert(pos, nm, rng.normal(size=len(df)))
         tab["df"] = df
     p = psm.write_pin(tab, d / "in.pin") if g % 2 == 0 else psm.write_parquet(tab, d / "in.parquet", row_group_size=64)
@@ -117,7 +123,8 @@ def run_api(case):
             return res
         res["obs"] = dict(status="ok", digest=digest_of(out), threads=out.get("threads"), file_rows=out.get("file_rows"))
         if case.get("repeat"):
-            spec2 = dict(spec, dest=str(d / "out2"))
+            # the repeat does not touch numpy's global generator again: the seed handed to the API must suffice
+            spec2 = dict(spec, dest=str(d / "out2"), no_np_seed=True)
             out2 = pipeline_main.run(spec2)
             res.count("pipeline_runs")
             if out2["status"] != "ok" or digest_of(out2) != digest_of(out):
